@@ -16,7 +16,7 @@ def d_block_fns(p):
     params = [('x', 'u64' if mu == 2 else 'u32')] + ([('y', 'u32')] if mu == 7 else [])
     d0 = ('f0x' if mu == 1 else 'f0', '&mut self' if mu == 4 else '&self', params, None if mu == 3 else 'u32', cc)
     f1 = ('f1', '&mut self', [], None, 'thiscall')
-    h = ('h', '&self', [], None, 'thiscall')
+    h = ('k', '&self', [], None, 'thiscall') if p.get('d_priv_k') else ('h', '&self', [], None, 'thiscall')
     if mu == 6: return [d0]
     if mu == 8: return [f1, d0, h]
     return [d0, f1, h]
@@ -88,11 +88,13 @@ def model(p):
 
 
 NAMES = ['ps', 'a_vft', 'b_vft', 'two_bases', 'd_block', 'mutation', 'dd_present', 'dd_block', 'a_impl', 'b_impl', 'd_impl', 'clash',
-         'a_fn_vis', 'cc']
+         'a_fn_vis', 'cc', 'd_priv_k']
 
 
 def params(args):
-    return dict(zip(NAMES, [int(x) for x in args[:14]]))
+    d = dict(zip(NAMES, [int(x) for x in args[:15]]))
+    d.setdefault('d_priv_k', 0)
+    return d
 
 
 def describe(args):
